@@ -7,6 +7,33 @@ import schedcheck
 PROPS = ["Props/C01.v"]
 
 
+def runaways(ctx):
+    """sub-slot projects in which one task has far more work than the project holds (on a slow resource or by its
+    effort): it takes the rest of slots that others finished in, runs off the end of the project and is given up - what
+    it leaves behind must not let later, lower-priority tasks book the same seconds again"""
+    import gens
+    import projects
+    out = []
+    for ap in gens.family(ctx, "subslot", ctx.n(120, 900)):
+        leaves = [n for _, n in projects.walk(ap["tasks"]) if "kids" not in n and n.get("effort")]
+        if len(leaves) < 3:
+            continue
+        ap["dur"] = ("d", ctx.rng.choice([2, 3, 5]))
+        big = ctx.rng.choice(leaves[1:])
+        big["effort"] = ctx.rng.choice([6000, 12000, 30000])
+        big["prio"] = ctx.rng.choice([500, 600, 700])
+        big.pop("start", None)
+        for n in leaves:
+            if n is not big and n.get("prio") is None and ctx.rng.random() < 0.5:
+                n["prio"] = ctx.rng.choice([100, 300, 900])
+            if n is not big and ctx.rng.random() < 0.6:
+                n["alloc"] = list(big.get("alloc") or n["alloc"])
+                n.pop("alt", None)
+        ap["_family"] = "runaway"
+        out.append(ap)
+    return out
+
+
 def run(ctx):
     def post(ctx, aps, res):
         cases, dis, bad = ledgercorr.run(ctx, 2 if ctx.quick() else 3, ctx.n(400, 4000))
@@ -23,4 +50,4 @@ def run(ctx):
                    ["seconds are exact rationals in the model, floats in the code (compared to 1 ms)",
                     "scheduler-level theorem covers the whole-slot (core) dialect; sub-slot sharing is covered by the cell theorem + operation-sequence correspondence + the oracle on whole sub-slot projects"],
                    "corpus first; generated sub-slot / core / ALAP / calendar projects scheduled by the implementation, the ledger checked per (resource, slot); exhaustive operation sequences up to length 2 (quick) / 3 (thorough) over a 13-letter alphabet plus random sequences up to length 14 on one slot compared with the extracted cell model; core projects compared with the extracted scheduler model (dates and bookings)",
-                   post=post)
+                   post=post, extra_cases=runaways)
